@@ -800,8 +800,11 @@ func (e *Engine) havocLoopTargets(st *State, body ast.Node, extra ...ast.Node) {
 		e.havocHeapOnly(st, "loop")
 		if e.frame != nil && !e.frame.all {
 			e.epochFrames[st.epoch] = true
-			e.assumeFrameMem(st)
 		}
+		if len(e.loopFrames) > 0 {
+			e.epochLoopFrames[st.epoch] = append([]*frame(nil), e.loopFrames...)
+		}
+		e.assumeFrameMem(st)
 	}
 	if maps {
 		for k, v := range st.ghost {
@@ -831,6 +834,29 @@ func (e *Engine) havocHeap(st *State, why string) {
 	e.assume(st, Ge(st.alloc, oldAlloc), "allocation pointer is monotone")
 	for k, v := range st.ghost {
 		st.ghost[k] = e.fresh("g_"+k+"_"+why, v.sort)
+	}
+}
+
+// pushLoopFrame: `loop#n modifies ...` names what the loop body may change among the memory that exists when the
+// loop is entered; everything else that exists then keeps its loop-entry contents at every iteration (assumed at the
+// head, checked at every write in the body).
+func (e *Engine) pushLoopFrame(st *State, lc *LoopContract) bool {
+	if lc == nil || !lc.hasModifies {
+		return false
+	}
+	f := &frame{entry: st.clone(), bound: st.alloc, startSeq: e.allocSeq}
+	for _, m := range lc.modifies {
+		m.fired++
+		mt := e.evalModTarget(st, m)
+		e.addFrameTarget(f, mt, m)
+	}
+	e.loopFrames = append(e.loopFrames, f)
+	return true
+}
+
+func (e *Engine) popLoopFrame(pushed bool) {
+	if pushed {
+		e.loopFrames = e.loopFrames[:len(e.loopFrames)-1]
 	}
 }
 
@@ -902,6 +928,8 @@ func (e *Engine) execFor(st *State, n *ast.ForStmt, cx *Ctx) *State {
 		return e.execUnrolled(st, n, cx, lc.unroll)
 	}
 	e.checkInvariants(st, lc, "inv-init", n.Pos())
+	pushedLF := e.pushLoopFrame(st, lc)
+	defer e.popLoopFrame(pushedLF)
 	// loop head: arbitrary iteration
 	head := st
 	e.havocLoopTargets(head, n.Body, n.Post, n.Cond)
@@ -1063,8 +1091,11 @@ func (e *Engine) execRange(st *State, n *ast.RangeStmt, cx *Ctx) *State {
 		}
 		bindHead(st)
 		e.checkInvariants(st, lc, "inv-init", n.Pos())
+		pushedLF := e.pushLoopFrame(st, lc)
+		defer e.popLoopFrame(pushedLF)
 		head := st
 		e.havocLoopTargets(head, n.Body)
+		e.groundFrameBlk(head, blk)
 		i := e.fresh("range_i", SInt)
 		head.vars[idxObj] = IntV{i}
 		e.assume(head, And(Le(I(0), i), Le(i, ln)), "range index")
